@@ -245,6 +245,14 @@ def valid_variations(data):
     d['reward_functions'] = [{'name': 'reduce_sum', 'reward_functions': copy.deepcopy(data['reward_functions'])},
                              {'name': 'living_reward', 'reward': 0.0, 'object_type': 'Wall', 'surprise': 2}]
     out.append(('rewards nested in reduce_sum + ignored parameters', d))
+    # distance shaping named in the configuration (distance functions by name, object type by name), for worlds with one exit
+    if 'Exit' in data['state_space']['objects'] and 'Beacon' not in data['state_space']['objects']:
+        for dist in ('euclidean', 'manhattan'):
+            d = copy.deepcopy(data)
+            d['reward_functions'] = list(d['reward_functions']) + [
+                {'name': 'proportional_to_distance', 'distance_function': dist, 'object_type': 'Exit', 'reward_per_unit_distance': -0.25},
+                {'name': 'getting_closer', 'distance_function': dist, 'object_type': 'Exit', 'reward_closer': 0.5, 'reward_further': -0.75}]
+            out.append((f'distance shaping with distance_function={dist}', d))
     obs = data['observation_function']
     if obs['name'] in ('partially_occluded', 'raytracing', 'fully_transparent', 'stochastic_raytracing'):
         for vname, extra in ((obs['name'], {}), ('raytracing', {'absolute_counts': False, 'threshold': 0.5}),
@@ -380,6 +388,11 @@ def corruptions(data):
             d = copy.deepcopy(data)
             get_path(d, path)['object_type'] = 'NoSuchObject'
             out.append(('object_type=NoSuchObject@' + '/'.join(map(str, path)), d))
+    for bad_dist in ('chebyshev', '', 'Manhattan', 3, None, ['manhattan']):
+        d = copy.deepcopy(data)
+        d['reward_functions'] = list(d['reward_functions']) + [
+            {'name': 'getting_closer', 'distance_function': bad_dist, 'object_type': 'Exit', 'reward_closer': 0.5, 'reward_further': -0.75}]
+        out.append((f'distance_function={bad_dist!r}', d))
     obs = data['observation_function']
     if 'area' in obs:
         for bad_vis in ({'name': 'no_such_visibility'}, {'nome': 'raytracing'}, 'raytracing', {'name': 'living_reward'}, None):
